@@ -327,33 +327,32 @@ Section RpcProofs.
   Proof.
     intros ps sch. induction sch as [|a sch IH]; intros s served pending recvd HF Hrun Hproj Hrep Hb.
     - simpl in *. exists served, pending. rewrite !app_nil_r in *. repeat split; assumption.
-    - destruct a as [r| |]; cbn [run_sched sched_step sends_of] in *.
+    - destruct s as [cq sq run pj]; simpl in HF, Hrun, Hproj, Hrep. subst run pj.
+      destruct a as [r| |]; cbn [run_sched sched_step sends_of] in *.
       + (* the client sends r *)
         assert (Hb' : benign W ps ((served ++ pending) ++ r :: sends_of W sch))
           by (rewrite <- app_assoc; exact Hb).
         destruct (benign_at _ _ _ _ Hb') as [[Hser _] _].
-        destruct (serialisable_dumps _ Hser) as [b Hd]. unfold client_send. rewrite Hd.
-        specialize (IH {| c2s := c2s s ++ [b]; s2c := s2c s; running := running s; proj := proj s |}
-                       served (pending ++ [r]) recvd).
-        destruct IH as (served' & pending' & Heq & H1 & H2 & H3 & H4); simpl; try assumption.
-        * apply Forall2_app; [exact HF|]. constructor; [exact Hd|constructor].
-        * rewrite <- app_assoc. simpl. exact Hb.
-        * exists served', pending'. rewrite <- Heq, <- app_assoc. simpl.
-          destruct (run_sched W _ sch) as [os s2]; simpl in *. repeat split; assumption.
+        destruct (serialisable_dumps _ Hser) as [b Hd]. unfold client_send. rewrite Hd. simpl.
+        assert (HF1 : Forall2 encoded (pending ++ [r]) (cq ++ [b])).
+        { apply Forall2_app; [exact HF|]. constructor; [exact Hd|constructor]. }
+        assert (Hb1 : benign W ps (served ++ (pending ++ [r]) ++ sends_of W sch)).
+        { rewrite <- app_assoc. simpl. exact Hb. }
+        destruct (IH {| c2s := cq ++ [b]; s2c := sq; running := true; proj := inproc_state W ps served |}
+                     served (pending ++ [r]) recvd HF1 eq_refl eq_refl Hrep Hb1)
+          as (served' & pending' & Heq & H1 & H2 & H3 & H4).
+        exists served', pending'. rewrite <- Heq, <- app_assoc. simpl.
+        destruct (run_sched W _ sch) as [os s2]; simpl in *. repeat split; assumption.
       + (* one iteration of the server loop *)
-        destruct s as [cq sq run pj]; simpl in *. subst run pj.
         destruct cq as [|b cq].
-        * (* nothing to read *)
+        * (* nothing to read: poll timed out *)
           inversion HF; subst.
-          assert (E : server_iter W {| c2s := []; s2c := sq; running := true;
-                                       proj := inproc_state W ps served |} =
-                      {| c2s := []; s2c := sq; running := true; proj := inproc_state W ps served |})
-            by reflexivity.
-          rewrite E.
-          specialize (IH {| c2s := []; s2c := sq; running := true; proj := inproc_state W ps served |}
-                         served [] recvd).
-          destruct IH as (served' & pending' & Heq & H1 & H2 & H3 & H4); simpl; try assumption;
-            try reflexivity; [constructor|].
+          change (server_iter W {| c2s := []; s2c := sq; running := true;
+                                   proj := inproc_state W ps served |})
+            with {| c2s := []; s2c := sq; running := true; proj := inproc_state W ps served |}.
+          destruct (IH {| c2s := []; s2c := sq; running := true; proj := inproc_state W ps served |}
+                       served [] recvd HF eq_refl eq_refl Hrep Hb)
+            as (served' & pending' & Heq & H1 & H2 & H3 & H4).
           exists served', pending'.
           destruct (run_sched W _ sch) as [os s2]; simpl in *. repeat split; assumption.
         * inversion HF as [|r b' pending0 cq' Hd HF']; subst.
@@ -362,34 +361,39 @@ Section RpcProofs.
           destruct (server_iter_request r b cq sq (inproc_state W ps served) Hd Hcl Hne)
             as (content & Hit & Hdec).
           rewrite Hit.
-          specialize (IH {| c2s := cq; s2c := sq ++ [content]; running := true;
-                            proj := snd (api W (inproc_state W ps served) r) |}
-                         (served ++ [r]) pending0 recvd).
-          destruct IH as (served' & pending' & Heq & H1 & H2 & H3 & H4); simpl; try assumption;
-            try reflexivity.
-          -- rewrite inproc_state_app. reflexivity.
-          -- rewrite map_app, app_assoc, Hrep, inproc_trace_app, map_app. simpl. rewrite Hdec.
-             destruct (api W (inproc_state W ps served) r) as [o ps']; reflexivity.
-          -- rewrite <- app_assoc. exact Hb.
-          -- exists served', pending'. rewrite <- Heq, <- app_assoc. simpl.
-             destruct (run_sched W _ sch) as [os s2]; simpl in *. repeat split; assumption.
+          assert (Hp1 : snd (api W (inproc_state W ps served) r) = inproc_state W ps (served ++ [r])).
+          { rewrite inproc_state_app. reflexivity. }
+          assert (Hrep1 : recvd ++ map (decode_reply W) (sq ++ [content]) =
+                          map (expected W) (inproc_trace W ps (served ++ [r]))).
+          { rewrite map_app, app_assoc, Hrep, inproc_trace_app, map_app. simpl. rewrite Hdec.
+            destruct (api W (inproc_state W ps served) r) as [o ps']; reflexivity. }
+          assert (Hb1 : benign W ps ((served ++ [r]) ++ pending0 ++ sends_of W sch)).
+          { rewrite <- app_assoc. exact Hb. }
+          destruct (IH {| c2s := cq; s2c := sq ++ [content]; running := true;
+                          proj := snd (api W (inproc_state W ps served) r) |}
+                       (served ++ [r]) pending0 recvd HF' eq_refl Hp1 Hrep1 Hb1)
+            as (served' & pending' & Heq & H1 & H2 & H3 & H4).
+          exists served', pending'. rewrite <- Heq, <- app_assoc. simpl.
+          destruct (run_sched W _ sch) as [os s2]; simpl in *. repeat split; assumption.
       + (* the client reads *)
-        destruct s as [cq sq run pj]; simpl in *. subst run pj.
         destruct sq as [|b sq]; simpl.
-        * specialize (IH {| c2s := cq; s2c := []; running := true; proj := inproc_state W ps served |}
-                         served pending recvd).
-          destruct IH as (served' & pending' & Heq & H1 & H2 & H3 & H4); simpl; try assumption;
-            try reflexivity.
+        * (* nothing to read yet: still blocked *)
+          destruct (IH {| c2s := cq; s2c := []; running := true; proj := inproc_state W ps served |}
+                       served pending recvd HF eq_refl eq_refl Hrep Hb)
+            as (served' & pending' & Heq & H1 & H2 & H3 & H4).
           exists served', pending'.
           destruct (run_sched W _ sch) as [os s2]; simpl in *. repeat split; assumption.
-        * specialize (IH {| c2s := cq; s2c := sq; running := true; proj := inproc_state W ps served |}
-                         served pending (recvd ++ [decode_reply W b])).
-          destruct IH as (served' & pending' & Heq & H1 & H2 & H3 & H4); simpl; try assumption;
-            try reflexivity.
-          -- rewrite <- app_assoc. exact Hrep.
-          -- exists served', pending'.
-             destruct (run_sched W _ sch) as [os s2]; simpl in *.
-             rewrite <- app_assoc in H4. repeat split; assumption.
+        * assert (Hrep1 : (recvd ++ [decode_reply W b]) ++ map (decode_reply W) sq =
+                          map (expected W) (inproc_trace W ps served)).
+          { rewrite <- app_assoc. exact Hrep. }
+          destruct (IH {| c2s := cq; s2c := sq; running := true; proj := inproc_state W ps served |}
+                       served pending (recvd ++ [decode_reply W b]) HF eq_refl eq_refl Hrep1 Hb)
+            as (served' & pending' & Heq & H1 & H2 & H3 & H4).
+          exists served', pending'.
+          destruct (run_sched W _ sch) as [os s2]; simpl in *.
+          replace (recvd ++ decode_reply W b :: os) with ((recvd ++ [decode_reply W b]) ++ os)
+            by (rewrite <- app_assoc; reflexivity).
+          repeat split; assumption.
   Qed.
 
   (* Under ANY interleaving of sends, server iterations and reads: the requests sent so far split
